@@ -117,11 +117,13 @@ func behaviourCases(quick bool) []bcase {
 
 const closeCode = 7
 
-func runBehaviour(engine string, quick bool, from, only int, bound time.Duration, out *c.Out) {
+var causeDelay = 15 * time.Millisecond // how long after the start of the call the cause arrives ("during")
+
+func runBehaviour(engine string, quick bool, from, only int, bound time.Duration, skip map[string]bool, out *c.Out) {
 	debug.SetGCPercent(-1) // a goroutine stuck in native code would block a stop-the-world phase
 	cs := behaviourCases(quick)
 	for idx := from; idx < len(cs); idx++ {
-		if only >= 0 && idx != only {
+		if only >= 0 && idx != only || skip[cs[idx].sh.Name] {
 			continue
 		}
 		res, hung := runOne(engine, idx, cs[idx], bound)
@@ -197,7 +199,7 @@ func runOne(engine string, idx int, bc bcase, bound time.Duration) (res BRes, hu
 		causeAt = time.Now()
 		close(causeDone)
 	}
-	const delay = 15 * time.Millisecond
+	delay := causeDelay
 	switch bc.arrival {
 	case "before":
 		if bc.cause == "deadline" {
